@@ -126,3 +126,62 @@ def require_close(a, b, tol, what, scale=None):
     if not e <= tol:
         raise Violation("%s: %r vs %r (relative error %.3g > %.3g)" % (what, float(a), float(b), e, tol))
     return e
+
+
+# --------------------------------------------------------------------------- histories (stateful parts)
+def history_machine(part_name, make_history, init_strategy, rules, stats, max_ops=12):
+    """Builds a hypothesis RuleBasedStateMachine whose rules append plain-data operations to a history and
+    apply them to `make_history(init)`; the history object exposes apply(op) (raises Violation), close() and
+    summary() -> dict(nontrivial=bool, classes=[...]).  `rules` maps an operation name to a strategy of
+    keyword arguments.  A failing history is stored as {"init":..., "ops":[...]} (the replay case)."""
+    from hypothesis import strategies as st
+    from hypothesis.stateful import RuleBasedStateMachine, initialize, precondition, rule
+
+    class Machine(RuleBasedStateMachine):
+        def __init__(self):
+            super().__init__()
+            self.init = None
+            self.ops = []
+            self.h = None
+
+        @initialize(init=init_strategy)
+        def start(self, init):
+            self.init = init
+            self.h = make_history(init)
+
+        def _do(self, op):
+            self.ops.append(op)
+            try:
+                self.h.apply(op)
+            except Violation as v:
+                stats.failure = {"case": {"init": self.init, "ops": list(self.ops)}, "message": str(v), "part": part_name}
+                raise
+
+        def teardown(self):
+            if self.h is None:
+                return
+            try:
+                summ = self.h.summary()
+            finally:
+                self.h.close()
+            stats.record({"init": self.init, "ops": self.ops}, summ)
+
+    for name, strat in rules.items():
+        def make(name=name):
+            def r(self, args):
+                self._do(dict(args, op=name))
+            r.__name__ = "op_" + name
+            return precondition(lambda self: self.h is not None and len(self.ops) < max_ops)(rule(args=strat)(r))
+        setattr(Machine, "op_" + name, make())
+    Machine.__name__ = "History_" + part_name.replace("-", "_")
+    return Machine
+
+
+def replay_history(make_history, case):
+    h = make_history(case["init"])
+    try:
+        for op in case["ops"]:
+            h.apply(op)
+        return h.summary()
+    finally:
+        h.close()
